@@ -16,7 +16,7 @@ import subprocess
 import sys
 
 VERIF = os.path.dirname(os.path.dirname(os.path.abspath(__file__)))
-WT = "/tmp/wt-validate"
+WT = os.environ.get("SEED_WT", "/tmp/wt-validate")
 ALL = ["C%02d" % i for i in range(1, 19)]
 
 
